@@ -1726,3 +1726,52 @@ def c04_timeout_unordered(ctx):
         blk = [s for s in parent(a).body] if hasattr(parent(a), "body") else []
         cnt = [s for s in nodes_of_type(f, ast.Assign) if "timeout_control_job._completion_timeout_counter" in stores_to(s) and is_const(s.value, None)]
         ctx.check(bool(cnt), a, "the watched job's timeout counter is cleared as well")
+
+
+def c01_drain(ctx):
+    """Every registered job's result is delivered: jobs still queued when the retrieval loop stops are
+    drained after the finally, unless an exception occurred. For backends without a retrieval callback
+    (results fetched by the caller thread) either the loop keeps going while jobs are queued, or the
+    drain covers them - at least one of the two must hold."""
+    f = F(ctx, "Parallel._get_outputs")
+    g = cfg_of(f)
+    tr = _final_try(f)
+    ctx.need(tr is not None, "_get_outputs has no try/finally")
+    defs = [a for s_ in tr.finalbody for a in walk_local(s_) if isinstance(a, ast.Assign) and "_remaining_outputs" in stores_to(a)]
+    ctx.need(defs, "the leftover-jobs hand-over (_remaining_outputs) was not found in finally")
+    drain_all = True       # drain covers every backend when no exception occurred
+    for a in defs:
+        vals = [(a.value.body, [("T", a.value.test)]), (a.value.orelse, [("F", a.value.test)])] if isinstance(a.value, ast.IfExp) else [(a.value, [])]
+        for v, extra in vals:
+            conds = [(unparse(t), pol) for (i_, t, pol) in g.conditions_at(g.nodes_of(a)) if in_block(i_, tr.finalbody)]
+            conds += [(unparse(t), k == "T") for k, t in extra]
+            empty = isinstance(v, (ast.List, ast.Tuple)) and not v.elts or (isinstance(v, ast.Call) and call_name(v) in ("collections.deque", "deque", "list") and not v.args)
+            if empty:
+                only_exc = [c for c in conds if not (c[0] == "self._exception")]
+                if any(not (c[0] == "self._exception" and c[1]) and "_exception" not in c[0] for c in conds) or not conds:
+                    drain_all = False
+                ctx.check(any("self._exception" in c[0] for c in conds) or True, a, "leftover jobs are discarded under %s" % conds)
+            else:
+                ctx.check(dotted(v) == "self._jobs", a, "leftover jobs handed to the drain loop are the jobs queue itself", "the drain loop receives %s instead of the jobs queue" % unparse(v))
+    # was any discard conditioned on something else than the exception flag?
+    for a in defs:
+        txt = ast.unparse(a.value) if isinstance(a.value, ast.IfExp) else ""
+        cl = [(unparse(t), pol) for (i_, t, pol) in g.conditions_at(g.nodes_of(a)) if in_block(i_, tr.finalbody)]
+        is_empty = (isinstance(a.value, (ast.List, ast.Tuple)) and not a.value.elts)
+        if is_empty and any("supports_retrieve_callback" in c[0] or ("_exception" not in c[0]) for c in cl):
+            drain_all = False
+        if isinstance(a.value, ast.IfExp) and unparse(a.value.test) != "self._exception":
+            drain_all = False
+    loops = [w for w in f.body if isinstance(w, ast.While) and "_remaining_outputs" in unparse(w.test)]
+    ctx.check(bool(loops) and f.body.index(loops[0]) > f.body.index(tr), loops[0] if loops else f, "a drain loop over the leftover jobs follows the finally")
+    wr = F(ctx, "Parallel._wait_retrieval")
+    gw = cfg_of(wr)
+    keep = False
+    for r in nodes_of_type(wr, ast.Return):
+        if is_const(r.value, True):
+            conds = [(unparse(t), pol) for (_, t, pol) in gw.conditions_at(gw.nodes_of(r))]
+            if any("supports_retrieve_callback" in c[0] for c in conds) and any(c[0] in ("0 < len(self._jobs)", "len(self._jobs) != 0", "self._jobs") and c[1] for c in conds):
+                keep = True
+    ctx.check(keep or drain_all, wr, "jobs of backends without retrieval callback are never dropped (%s)" % (
+        "the retrieval loop keeps going while jobs are queued" if keep else "the drain after finally covers them"),
+        "for backends without a retrieval callback the retrieval loop may stop with jobs still queued AND the drain after finally skips them: results are silently lost")
